@@ -106,6 +106,10 @@ func (h *killedHandler) cleanupIfNotRestarting() {
 		ActorRef: h.ctx.ref,
 		Type:     reflect.TypeOf(h.ctx.actor),
 	})
+
+	// 若 Actor 终止时邮箱仍处于暂停状态（例如故障后被监管者直接停止），排队中的普通消息既不会被处理
+	// 也不会进入死信；恢复邮箱使其被排空并作为死信发布
+	h.ctx.mailbox.Resume()
 }
 
 // cleanupScheduler 清理调度器
